@@ -19,6 +19,26 @@ CHECKS = {
              "normal form are computed by calling icalendar/vobject directly; SHA-1/MD5 collision-freeness.",
         tech="Lean 4 refinement proof (induction over histories) + differential correspondence + Lean spec monitor",
         ref="5/C01"),
+    "C02": dict(
+        text="ETag = quoted token of the stored bytes (content addressing). Proved on the HTTP model: the tag PUT returns "
+             "is the tag of the bytes now stored; GET/HEAD and the listing agree; equal strong tags iff equal bytes; a "
+             "PUT changes the tag of at most the one member it writes; restarts change none. Tied to /repo by reading "
+             "every view (PUT, GET, HEAD, PROPFIND, multiget, query, sync) after every step through both front ends and "
+             "re-hashing every served body.",
+        note="correspondence is sampling; SHA-1/MD5 collision-freeness; report rendering itself is observed, not modelled.",
+        tech="Lean 4 proof over the content-addressed HTTP model + all-views differential audit",
+        ref="5/C02"),
+    "C03": dict(
+        text="webdav.etag_matches is TRANSLATED from /repo's source to Lean on every run and proved equal to the model, "
+             "which is proved to implement RFC 7232 on every well-formed header (any list, any padding, any resource "
+             "state); on the handler model: failing If-Match/If-None-Match => 412 and the world is unchanged, an "
+             "acknowledged PUT satisfied its conditions, DELETE and GET(304) likewise, and the replace_etag/etag "
+             "arguments of all three stores. Header grid is exhaustive through the real function; HTTP histories run "
+             "through both front ends.",
+        note="translator (harness/translate.py) is trusted for etag_matches; handler and front-end header plumbing are "
+             "tied by correspondence (sampling) — the WSGI/aiohttp adapters are exercised, not proved.",
+        tech="Python->Lean translation + Lean 4 proof against an RFC 7232 spec + differential correspondence",
+        ref="5/C03"),
     "C06": dict(
         text="Invariant proof: `_scan_uids` is proved exact (after a scan the UID cache is the image of the current "
              "listing, whatever was scanned before) by induction over the two loops; from it: a UID refusal implies "
